@@ -14,7 +14,8 @@ EXPLANATION = (
     "every deferred constraint (operator, field, variant, total-case, index, variable) recorded with add_constraint is "
     "checked on every success path; (COPY) fresh instantiation (TypeChecker::copy) is applied only to the types of "
     "let-generalisable binders (blob/enum declarations named by a type or constructor), never blindly to the result of an "
-    "arbitrary expression such as a lambda-bound parameter; (START) the entry point is typed."
+    "arbitrary expression such as a lambda-bound parameter; (COPY-STRUCTURE) instantiation rebuilds every constraint and "
+    "type constructor unchanged and remaps every type-graph edge into the copy."
 )
 UNDECIDED = ("soundness of unification with deferred constraints as a theorem; run-time behaviour of `external` code; "
              "assignment through a tuple index is accepted by can_assign but rejected by the runtime (reported as information).")
@@ -34,6 +35,7 @@ def run(F, rep, tier):
     n = c03.discharge(F, rep, only=None)
     rep.floor("DISCHARGE", "add_constraint sites", n, 25)
     copy_discipline(F, rep)
+    copy_structure(F, rep)
     contradiction_info(F, rep)
 
 
@@ -76,6 +78,18 @@ def copy_discipline(F, rep):
                         "different types and any function passed for it is accepted" % d),
                        line_of(c))
     rep.floor("COPY", "copy() call sites", n, 5)
+
+
+def copy_structure(F, rep):
+    """inner_copy (instantiation of polymorphic types) must rebuild every constraint and every type with the same
+    constructor and remap every type-graph edge into the copy: a stale edge or a changed constraint kind makes the
+    instantiated type check something else than the original demanded"""
+    fn = F.fn(TC + "inner_copy")
+    rep.analysed(fn)
+    n1 = tc.structure_preserving(F, rep, "COPY-STRUCTURE", fn, TCM + "Constraint", TC + "inner_copy")
+    n2 = tc.structure_preserving(F, rep, "COPY-STRUCTURE", fn, TY, TC + "inner_copy")
+    rep.floor("COPY-STRUCTURE", "constraint rows", n1, 17)
+    rep.floor("COPY-STRUCTURE", "type rows", n2, 14)
 
 
 def contradiction_info(F, rep):
